@@ -217,3 +217,81 @@ Definition fp_bits (G : decls) (nsig : nat) (F : fp) : Z :=
    progs i is the translated body of block i;  d carries the DECLARED (pymtl3) footprints. *)
 Definition rtl_cover_ok (G : decls) (progs : nat -> list stmt) (d : design) : bool :=
   forallb (fun i => covers (rds d i) (reads_d G (progs i)) && covers (wrs d i) (writes_d G (progs i))) (ids d).
+
+(* ================================================================ must-write / exposed-read analysis
+   A flow-sensitive pass over a block (loops are walked iteration by iteration, their bounds being constants):
+     D   the bits DEFINITELY written (with @=, at a static position) on every path that does not raise
+     X   every read, paired with the D that held before it: a read bit is EXPOSED iff it is not in that D
+   If all exposed reads of a block are known, its written bits in D do not depend on their previous values
+   (RTL/FlowSound.v): no latch, and reading back what the block itself has just written (the arbiter kill chain)
+   is not a read of the block. *)
+Definition must_lhs (G : decls) (L : lenv) (l : lhs) : fp :=
+  match l with
+  | LSig s p => whole_fp G s p
+  | LSlice s p lo hi =>
+      match lookup_sig G s p with
+      | None => []
+      | Some f =>
+          match static_int L lo, static_int L hi with
+          | Some l, Some h => if valid_range (fw f) l h then [(s, flo f + l, flo f + h)] else []
+          | _, _ => []
+          end
+      end
+  | LIndex s p i =>
+      match lookup_sig G s p with
+      | None => []
+      | Some f =>
+          match static_int L i with
+          | Some k => if (0 <=? k) && (k <? fw f) then [(s, flo f + k, flo f + k + 1)] else []
+          | None => []
+          end
+      end
+  | LTmp _ => []
+  end.
+
+(* bits of A that are also in B, as unit intervals *)
+Definition fp_inter (A B : fp) : fp :=
+  flat_map (fun a => map (fun k => (iroot a, ilo a + Z.of_nat k, ilo a + Z.of_nat k + 1))
+                         (filter (fun k => mem_fp B (iroot a, ilo a + Z.of_nat k)) (seq 0 (Z.to_nat (ihi a - ilo a))))) A.
+
+Definition xfp := list (fp * fp).
+Definition exposed (X : xfp) (v : bit) : bool := existsb (fun p => mem_fp (fst p) v && negb (mem_fp (snd p) v)) X.
+
+Definition flow_list (f : stmt -> lenv -> fp -> xfp * fp) : list stmt -> lenv -> fp -> xfp * fp :=
+  fix go (l : list stmt) (L : lenv) (D : fp) : xfp * fp :=
+    match l with
+    | [] => ([], D)
+    | x :: r => let xd := f x L D in let rd := go r (kill (loop_ids_s x) L) (snd xd) in (fst xd ++ fst rd, snd rd)
+    end.
+
+Fixpoint flow_iter (f : lenv -> fp -> xfp * fp) (mk : Z -> lenv) (vals : list Z) (D : fp) : xfp * fp :=
+  match vals with
+  | [] => ([], D)
+  | i :: r => let xd := f (mk i) D in let rd := flow_iter f mk r (snd xd) in (fst xd ++ fst rd, snd rd)
+  end.
+
+Fixpoint flow_s (G : decls) (s : stmt) (L : lenv) (D : fp) {struct s} : xfp * fp :=
+  match s with
+  | SAssign _ l e b => ([(reads_lhs G L l ++ reads_e G L e, D)], if b then must_lhs G L l ++ D else D)
+  | SIf _ c t f =>
+      let a := flow_list (flow_s G) t L D in
+      let b := flow_list (flow_s G) f L D in
+      ((reads_e G L c, D) :: fst a ++ fst b, fp_inter (snd a) (snd b))
+  | SFor id lo hi step body =>
+      flow_iter (fun L' D' => flow_list (flow_s G) body L' D')
+                (fun i => (id, i) :: kill (id :: loop_ids_l body) L)
+                (iter_vals (loop_count lo hi step) lo step) D
+  end.
+
+Definition flow_d (G : decls) (b : list stmt) : xfp * fp := flow_list (flow_s G) b [] [].
+(* exposed reads / definite writes of a block *)
+Definition xreads_d (G : decls) (b : list stmt) : xfp := fst (flow_d G b).
+Definition must_d (G : decls) (b : list stmt) : fp := snd (flow_d G b).
+
+(* every exposed bit of X is a bit of Q *)
+Definition xcovers (Q : fp) (X : xfp) : bool :=
+  forallb (fun p => forallb (fun a => forallb (fun k => let v := (iroot a, ilo a + Z.of_nat k) in mem_fp (snd p) v || mem_fp Q v)
+                                              (seq 0 (Z.to_nat (ihi a - ilo a)))) (fst p)) X.
+
+(* a combinational block without latch: everything it may write, it definitely writes *)
+Definition no_latch (G : decls) (b : list stmt) : bool := covers (must_d G b) (writes_d G b).
